@@ -183,6 +183,13 @@ impl GenerateConfig {
                 if let Some(force) = typegen.get("force").and_then(|v| v.as_bool()) {
                     config.force = Some(force);
                 }
+                // the naming conventions, as a stand-alone configuration file carries them
+                if let Some(case) = typegen.get("defaultParameterCase").and_then(|v| v.as_str()) {
+                    config.default_parameter_case = case.to_string();
+                }
+                if let Some(case) = typegen.get("defaultFieldCase").and_then(|v| v.as_str()) {
+                    config.default_field_case = case.to_string();
+                }
 
                 config.validate()?;
                 return Ok(Some(config));
@@ -224,6 +231,8 @@ impl GenerateConfig {
             "excludePatterns": self.exclude_patterns,
             "includePatterns": self.include_patterns,
             "force": self.force.unwrap_or(false),
+            "defaultParameterCase": self.default_parameter_case,
+            "defaultFieldCase": self.default_field_case,
         });
 
         // Ensure plugins section exists and insert typegen configuration
